@@ -14,8 +14,12 @@ all writing into ONE ordered event log:
 plus a counting `wsgi.input` and a user function that is a generated closure recording every
 invocation.
 
-Rules (one signature each, `<path>` = coarse reply path: success | stream | fault | too-long |
-bad-content-length | wsgi):
+Rules (one signature each).  `<path>` is a coarse label of the reply path the *request* calls
+for, computed from the case alone (never from what spyne did): success | stream (generator /
+user-set ctx.out_string) | fault (every error answer, RequestTooLong and unusable
+CONTENT_LENGTH included) | wsdl.  `<Exc>` is the exception class, except that exceptions
+raised by the generated user code are bucketed as user-Fault / user-exception (their class
+is a parameter of the case, not a root cause).
 
   C13|escaped|<Exc>|<file:function>|<path>      exception out of the WSGI callable
   C13|escaped-during-body|<Exc>|<where>|<path>  exception out of next()/close() of the iterable
@@ -146,8 +150,8 @@ def more_outcomes(prot):
 
 
 CL_GRID = [
-    {"kind": "absent"}, {"kind": "empty"},
-    {"kind": "lt", "d": 1}, {"kind": "eq"},
+    {"kind": "absent"}, {"kind": "empty"}, {"kind": "zero"},
+    {"kind": "lt", "d": 1}, {"kind": "cut-in-char"}, {"kind": "eq"},
     {"kind": "eq", "junk": 5}, {"kind": "eq", "junk": 10000},
     {"kind": "gt", "d": 1}, {"kind": "gt-limit", "d": 1},
     {"kind": "bad", "text": "abc"},
@@ -156,7 +160,7 @@ LIMIT_GRID = [{"kind": "0"}, {"kind": "1"}, {"kind": "n-", "d": 1}, {"kind": "n"
               {"kind": "n+", "d": 1}, {"kind": "2MiB"}]
 
 
-def _case(prot, outcome, cl, limit, block, chunked, abort=None, validate=False, arg="hello",
+def _case(prot, outcome, cl, limit, block, chunked, abort=None, validate=False, arg="héllo",
           hb=0):
     c = {"prot": prot, "outcome": outcome, "arg": arg,
          "cl": {k: v for k, v in cl.items() if k != "junk"}, "junk": cl.get("junk", 0),
@@ -242,14 +246,15 @@ def hyp_cases(tier):
         o = draw(outcome(prot))
         d = st.integers(1, 60)
         cl = draw(st.one_of(
-            st.just({"kind": "absent"}), st.just({"kind": "empty"}),
+            st.just({"kind": "absent"}), st.just({"kind": "empty"}), st.just({"kind": "zero"}),
+            st.just({"kind": "negative"}), st.just({"kind": "cut-in-char"}),
             st.builds(lambda x: {"kind": "lt", "d": x}, d),
             st.just({"kind": "eq"}), st.just({"kind": "eq"}),
             st.builds(lambda x: {"kind": "gt", "d": x}, d),
             st.builds(lambda x: {"kind": "gt-limit", "d": x}, st.integers(1, 5000)),
             st.builds(lambda t: {"kind": "bad", "text": t},
-                      st.sampled_from(["abc", "12abc", "1.5", "0x10", "-1", "1e3", "1,000",
-                                       "twelve", "12 13"]))))
+                      st.sampled_from(["abc", "12abc", "1.5", "0x10", "1e3", "1,000",
+                                       "twelve", "12 13", "--1"]))))
         lim = draw(st.one_of(
             st.just({"kind": "0"}), st.just({"kind": "1"}),
             st.builds(lambda x: {"kind": "n-", "d": x}, d), st.just({"kind": "n"}),
@@ -263,6 +268,7 @@ def hyp_cases(tier):
                   arg=draw(_TXTB),
                   hb=draw(st.sampled_from([0, 0, 1, 10, 3000])))
         c["junk"] = draw(st.sampled_from([0, 0, 0, 1, 5, 9000]))
+        c["ct"] = draw(st.sampled_from(["charset", "charset", "plain", "absent"]))
         return c
     return one()
 
@@ -395,6 +401,13 @@ def build_app(case, tns, calls):
     return Application([svc], tns=tns, name="C13App", in_protocol=inp, out_protocol=outp)
 
 
+def _ctype(case, mime):
+    ct = case.get("ct", "charset")
+    if ct == "absent":
+        return None
+    return mime + "; charset=utf-8" if ct == "charset" else mime
+
+
 def build_request(case, tns):
     """-> (method, path, query, document bytes, content type)"""
     p = case["prot"]
@@ -407,18 +420,18 @@ def build_request(case, tns):
         doc = '<x:%s xmlns:x="%s"><x:s>%s</x:s></x:%s>' % (name, tns, escape(arg), name)
         if kind == "malformed":
             doc = doc[:-len("</x:%s>" % name)]
-        return "POST", "/", "", doc.encode("utf-8"), "text/xml; charset=utf-8"
+        return "POST", "/", "", doc.encode("utf-8"), _ctype(case, "text/xml")
     if p == "soap11":
         doc = ('<e:Envelope xmlns:e="%s"><e:Body><x:%s xmlns:x="%s"><x:s>%s</x:s></x:%s>'
                '</e:Body></e:Envelope>' % (SOAP_ENV, name, tns, escape(arg), name))
         if kind == "malformed":
             doc = doc[:-len("</e:Envelope>")]
-        return "POST", "/", "", doc.encode("utf-8"), "text/xml; charset=utf-8"
+        return "POST", "/", "", doc.encode("utf-8"), _ctype(case, "text/xml")
     if p == "json":
         doc = json.dumps({name: {"s": arg}})
         if kind == "malformed":
             doc = doc[:-1]
-        return "POST", "/", "", doc.encode("utf-8"), "application/json; charset=utf-8"
+        return "POST", "/", "", doc.encode("utf-8"), _ctype(case, "application/json")
     # HttpRpc: GET with a query string; the body (hb bytes) is not part of the call
     return ("GET", "/" + name, "s=" + quote(arg, safe=""), b"B" * case.get("hb", 0),
             "application/octet-stream")
@@ -427,12 +440,22 @@ def build_request(case, tns):
 _NUM = re.compile(r"^[0-9]+$")
 
 
-def content_length_text(cl, n, limit):
+def content_length_text(cl, n, limit, doc=b""):
     k = cl["kind"]
     if k == "absent":
         return None
     if k == "empty":
         return ""
+    if k == "zero":
+        return "0"
+    if k == "negative":
+        return "-1"
+    if k == "cut-in-char":
+        # the declared length ends inside the first multi-byte UTF-8 sequence of the document
+        for i, b in enumerate(doc):
+            if b >= 0xC0:
+                return str(i + 1)
+        return str(max(0, n - 1))
     if k == "lt":
         return str(max(0, n - cl["d"]))
     if k == "eq":
@@ -619,7 +642,8 @@ def intended_path(kind, o):
 
 def classify(case, n, stream_len, limit, cl_text):
     """-> (expected, path)
-    expected: wsdl | bad-content-length | too-long | intended | garbled | unspecified"""
+    expected: wsdl | bad-content-length | too-long | intended | garbled | unspecified
+    path (a label for signatures only): success | stream | fault | wsdl"""
     o = case["outcome"]
     kind = o["kind"]
     ipath = intended_path(kind, o)
@@ -628,25 +652,27 @@ def classify(case, n, stream_len, limit, cl_text):
     numeric = cl_text is not None and _NUM.match(cl_text) is not None
     declared = int(cl_text) if numeric else None
     if not is_doc(case["prot"]):
-        # the GET body is not part of the call; its declared length still is a request body
-        # (the reply path stays the intended one: the body is never looked at)
+        # the GET body is not part of the call (the reply path stays the intended one), but
+        # its declared length still is the length of a request body
         if numeric and declared > limit:
             return "too-long", ipath
         return "intended", ipath
-    if cl_text is not None and cl_text != "" and not numeric:
-        return "bad-content-length", "bad-content-length"
+    if case["cl"]["kind"] == "bad":
+        return "bad-content-length", "fault"
     if numeric and declared > limit:
-        return "too-long", "too-long"
+        return "too-long", "fault"
+    if numeric and declared == n and stream_len >= n:
+        return "intended", ipath
+    # what a reader that honours CONTENT_LENGTH and the limit gets: the whole document or not
     if numeric:
-        if declared == n and stream_len >= n:
-            return "intended", ipath
-        if declared > n and stream_len == n:
-            return "unspecified", ipath      # short stream: the document itself is complete
+        eff = min(declared, stream_len)
+    elif cl_text is None:
+        eff = min(limit, stream_len)
+    else:                      # '' and '-1'
+        eff = 0
+    if numeric and (declared < n or stream_len > n):
         return "garbled", "fault"
-    # absent / '': PEP 3333 leaves it open; label by what a reader of <= limit bytes gets
-    if cl_text is None and stream_len == n and n <= limit:
-        return "unspecified", ipath
-    return "unspecified", "fault"
+    return "unspecified", (ipath if eff == n else "fault")
 
 
 def rel(limit, n):
@@ -664,6 +690,17 @@ def block_class(b, n):
     if b < n:
         return "<n"
     return ">=n"
+
+
+def exc_label(exc):
+    """(type label, innermost spyne frame).  Exceptions raised by the generated user code are
+    bucketed (their class is a parameter of the case, not a root cause)."""
+    et, where = F.exc_origin(exc)
+    tb = traceback.extract_tb(exc.__traceback__)
+    if tb and os.path.abspath(tb[-1].filename) == os.path.abspath(__file__.replace(".pyc", ".py")):
+        from spyne import Fault
+        et = "user-Fault" if isinstance(exc, Fault) else "user-exception"
+    return et, where
 
 
 def _validate_origin(exc):
@@ -690,7 +727,7 @@ def run_case(case, rec):
     method, path_info, query, doc, ctype = build_request(case, tns)
     n = len(doc)
     limit = limit_value(case["limit"], n)
-    cl_text = content_length_text(case["cl"], n, limit)
+    cl_text = content_length_text(case["cl"], n, limit, doc)
     stream_bytes = doc + b"J" * case.get("junk", 0)
     stream = CountingInput(stream_bytes)
     expected, path = classify(case, n, len(stream_bytes), limit, cl_text)
@@ -730,7 +767,15 @@ def run_case(case, rec):
             raise HarnessError("wsgiref.validate rejects the harness's environ: %s" % (e,))
         target = wsgiref.validate.validator(wsgi_app)
 
-    drive(target, environ, k, obs)
+    try:
+        drive(target, environ, k, obs)
+    finally:
+        # spyne keeps every Application (plus two NullServers) in a global registry
+        from spyne.util import appreg
+        try:
+            appreg.unregister_application(app)
+        except KeyError:
+            pass
 
     what = ("%s %s chunked=%s block=%d limit=%d n=%d stream=%d CONTENT_LENGTH=%r abort=%r "
             "validated=%s expected=%s" % (case["prot"], json.dumps(case["outcome"])[:200],
@@ -758,12 +803,12 @@ def run_case(case, rec):
             bad("C13|wsgiref-validate|%s|%s" % (vfn, path),
                 "wsgiref.validate.validator objects to the response: %s" % (exc,))
         elif stage == "call":
-            et, where = F.exc_origin(exc)
+            et, where = exc_label(exc)
             bad("C13|escaped|%s|%s|%s" % (et, where, path),
                 "%r escaped from the WSGI callable (start_response had been called %d times)"
                 % (exc, len(obs.sr)))
         else:
-            et, where = F.exc_origin(exc)
+            et, where = exc_label(exc)
             bad("C13|escaped-during-body|%s|%s|%s" % (et, where, path),
                 "%r escaped from %s of the response iterable after %d chunks"
                 % (exc, "close()" if stage == "close" else "next()", len(obs.chunks)))
@@ -874,7 +919,8 @@ def run_case(case, rec):
             % ",".join(sorted(set(stream.unbounded))))
 
     # ---- harness self-check: did the request do what the case intends? ---------------
-    if expected == "intended" and obs.escaped is None and isinstance(status, str):
+    if expected == "intended" and obs.escaped is None and isinstance(status, str) \
+            and case["cl"]["kind"] != "bad":
         kind = case["outcome"]["kind"]
         want2xx = path in ("success", "stream") and not (
             kind == "stream-gen" and case["outcome"]["raise_at"] is not None)
@@ -912,7 +958,7 @@ def run_case(case, rec):
            "chunked": chunked, "abort": aclass, "block": block_class(case["block"], n),
            "validated": validated, "expected": expected}
     nontrivial = (clclass != "eq" or abs(limit - n) <= 1 or (k is not None and k < total)
-                  or path == "stream" or path in ("fault", "too-long", "bad-content-length"))
+                  or path in ("stream", "fault") or expected == "too-long")
     rec.case(case, failures=fails, nontrivial=key if nontrivial else None,
              classes=["outcome:" + okind, "prot:" + case["prot"], "cl:" + clclass,
                       "limit:" + rel(limit, n), "chunked:%s" % chunked, "abort:" + aclass,
@@ -931,7 +977,7 @@ def shards(tier):
                 out.append({"kind": "enum", "grid": "A", "prot": p, "chunked": ch, "block": b})
             out.append({"kind": "enum", "grid": "B", "prot": p, "chunked": ch})
             out.append({"kind": "enum", "grid": "C", "prot": p, "chunked": ch})
-    n = 400 if tier == "quick" else 30000
+    n = 1000 if tier == "quick" else 25000
     out += [{"kind": "hyp", "i": i, "n": n} for i in range(16)]
     return out
 
